@@ -78,6 +78,8 @@ class Stats:
         self.handles += rec.steps or 0
         if (rec.steps or 0) > self.probes.get('max_handles_in_one_run', 0):
             self.probes['max_handles_in_one_run'] = rec.steps
+        if (rec.after_done_handles or 0) > self.probes.get('max_handles_after_all_runs_ended', 0):
+            self.probes['max_handles_after_all_runs_ended'] = rec.after_done_handles
         if (getattr(rec, 'max_lag', 0) or 0) > self.probes.get('max_handles_from_last_external_event_to_run_end', 0):
             self.probes['max_handles_from_last_external_event_to_run_end'] = rec.max_lag
         self.vtime += rec.vtime or 0.0
